@@ -22,12 +22,13 @@ pub struct Opts {
     pub out: String,
     pub shards: usize,
     pub only: Option<String>,
+    pub input: Option<String>,
 }
 
 fn parse() -> Opts {
     let a: Vec<String> = std::env::args().collect();
     let mut o = Opts { scenario: a.get(1).cloned().unwrap_or_default(), seed: 1, thorough: false,
-                       out: ".".into(), shards: 1, only: None };
+                       out: ".".into(), shards: 1, only: None, input: None };
     let mut i = 2;
     while i < a.len() {
         match a[i].as_str() {
@@ -36,6 +37,7 @@ fn parse() -> Opts {
             "--out" => { o.out = a[i + 1].clone(); i += 1; }
             "--shards" => { o.shards = a[i + 1].parse().unwrap_or(1); i += 1; }
             "--only" => { o.only = Some(a[i + 1].clone()); i += 1; }
+            "--in" => { o.input = Some(a[i + 1].clone()); i += 1; }
             _ => {}
         }
         i += 1;
@@ -205,6 +207,8 @@ fn main() {
         "reset" => reset::scn_reset(&o, &mut tr, "C18"),
         "snapshots" => reset::scn_snapshots(&o, &mut tr, "C19"),
         "checksums" => cks::scn_checksums(&o, &mut tr, "C16"),
+        "genstreams" => scn_dec::scn_genstreams(&o, &mut tr, "C03"),
+        "genstreams_c04" => scn_dec::scn_genstreams(&o, &mut tr, "C04"),
         "entrypoints" => scn_dec::scn_entrypoints(&o, &mut tr, "C03"),
         "trailing" => scn_dec::scn_trailing(&o, &mut tr, "C06"),
         "schedules" => scn_dec::scn_schedules(&o, &mut tr, "C07"),
@@ -260,6 +264,35 @@ fn scn_streamcomp(o: &Opts, tr: &mut Tr, prop: &str) {
     } else {
         vec![("zeros", 100_000, 6), ("rand", 70_000, 0), ("period1000", 90_000, 1), ("rand", 40_000, 6)]
     };
+    // literal-heavy data with matches, more than one LZ block, lazy parsing, tiny output buffers:
+    // calls are suspended inside the LZ loops with a deferred match pending
+    let lazies: Vec<(&str, usize, u8, usize)> = if o.thorough {
+        vec![("text", 200_000, 6, 128), ("mixed", 250_000, 9, 500), ("text", 150_000, 4, 64), ("alpha4", 120_000, 7, 1000), ("text", 100_000, 1, 100)]
+    } else {
+        vec![("text", 120_000, 6, 128), ("mixed", 150_000, 9, 500)]
+    };
+    for (li, (kind, size, lvl, ol)) in lazies.iter().enumerate() {
+        let data = gen::data(kind, *size, &mut r);
+        let cfg = Cfg { zlib: li % 2 == 1, level: *lvl, strat: 0, wbits: 15, api: "params" };
+        let sch = Sched { chunk_pat: "fixed500".into(), outs: vec![*ol], flush_pct: 0, flush_set: vec![], callback: false, max_points: 0 };
+        stream_comp_case(tr, &format!("sclazy-{}-{}-l{}-o{}", kind, size, lvl, ol), prop, &data, &cfg, &sch, &mut r, kind);
+    }
+    // stored route: a call whose last byte triggers the internal 31 KiB block cut, with a flush
+    // requested in the same call and an output buffer smaller than the block
+    let mut ti = 0;
+    for t in [31744usize, 31745, 31746, 63489, 63490, 95234] {
+        for fi in [2usize, 3, 4, 1] {
+            for ol in [100usize, 1024, 4096] {
+                ti += 1;
+                if !o.thorough && (ti + o.seed as usize) % 3 != 0 { continue; }
+                let data = gen::data("rand", t + if fi == 4 { 0 } else { 777 }, &mut r);
+                let cfg = Cfg { zlib: ti % 2 == 0, level: 0, strat: 0, wbits: 15, api: "params" };
+                let split = if ti % 4 == 0 { format!("split{}", r.gen_range(1..t)) } else { format!("first{}", t) };
+                let sch = Sched { chunk_pat: split, outs: vec![ol], flush_pct: 100, flush_set: vec![fi.min(3)], callback: false, max_points: 0 };
+                stream_comp_case(tr, &format!("scthr-{}-{}-o{}-{}", t, comp::FLUSHES[fi].0, ol, ti), prop, &data, &cfg, &sch, &mut r, "rand");
+            }
+        }
+    }
     for (bi, (kind, size, lvl)) in bigs.iter().enumerate() {
         let data = gen::data(kind, *size, &mut r);
         let cfg = Cfg { zlib: bi % 2 == 0, level: *lvl, strat: 0, wbits: 15, api: "params" };
@@ -291,6 +324,23 @@ fn scn_flushes(o: &Opts, tr: &mut Tr, prop: &str) {
         };
         let id = format!("fl{}-{}-{}-l{}-{}", i, kind, size, lvl, STRATS[st].0);
         stream_comp_case(tr, &id, prop, &data, &cfg, &sch, &mut r, kind);
+    }
+    // every strategy x flush kind on data with runs / repeats straddling the flush points
+    let mut k = 0;
+    for st in 0..5usize {
+        for fi in [1usize, 2, 3, 5, 6, 7] {
+            for kind in ["runs", "zeros", "period3", "text"] {
+                for lvl in [1u8, 6] {
+                    k += 1;
+                    if !o.thorough && (k + o.seed as usize) % 2 == 0 { continue; }
+                    let data = gen::data(kind, 400 + r.gen_range(0..1500), &mut r);
+                    let cfg = Cfg { zlib: k % 2 == 0, level: lvl, strat: st, wbits: 15, api: "params" };
+                    let sch = Sched { chunk_pat: ["fixed97", "rand", "fixed300"][k % 3].into(), outs: vec![1 << 20], flush_pct: 100,
+                                      flush_set: vec![fi], callback: false, max_points: 4 };
+                    stream_comp_case(tr, &format!("flx-{}-{}-{}-l{}-{}", STRATS[st].0, comp::FLUSHES[fi].0, kind, lvl, k), prop, &data, &cfg, &sch, &mut r, kind);
+                }
+            }
+        }
     }
     // history > 32 KiB before a full flush
     for (bi, (kind, size)) in [("period900", 80_000usize), ("zeros", 70_000), ("runs", 50_000)].iter().enumerate() {
